@@ -21,6 +21,8 @@ type Env struct {
 	bound map[string]bool
 	qdepth int
 	atEnd  bool // names are resolved at the end of block `at` (postconditions), not at its head
+	prevVals  map[*ssa.Phi]Val // step clauses: header values of the loop's phis
+	prevState *State
 }
 
 func (fx *fnExec) baseEnv(cur *State) *Env {
@@ -402,6 +404,23 @@ func (fx *fnExec) evalCall(e *Expr, env *Env) TV {
 		env2 := *env
 		env2.cur = env.old
 		return fx.eval(e.Args[0], &env2)
+	case "prev":
+		if env.prevVals == nil || env.fr == nil {
+			panic(contractErr("prev() outside a loop step clause"))
+		}
+		cur := map[*ssa.Phi]Val{}
+		for phi, v := range env.prevVals {
+			cur[phi] = env.fr.vals[phi]
+			env.fr.vals[phi] = v
+		}
+		env2 := *env
+		env2.cur = env.prevState
+		env2.prevVals = nil
+		r := fx.eval(e.Args[0], &env2)
+		for phi, v := range cur {
+			env.fr.vals[phi] = v
+		}
+		return r
 	case "len":
 		v := fx.eval(e.Args[0], env)
 		switch x := v.V.(type) {
